@@ -6,7 +6,7 @@
    lease, acknowledgement, snapshot, seek). *)
 From MB Require Import Base.
 From MB.Bus Require Import State Ops Step Defs L_Tables L_Good L_Helpers L_Step T_Inv.
-From MB.Bus Require Import T_C01 T_C02 T_C03 T_C04 T_C05 T_C06 T_C13 T_C14.
+From MB.Bus Require Import T_C01 T_C02 T_C03 T_C04 T_C05 T_C06 T_C13 T_C14 T_Spec.
 Local Open Scope string_scope.
 Open Scope list_scope.
 Open Scope Z_scope.
@@ -338,6 +338,28 @@ Proof.
   - intros m' Hm'. each_in Hm'; vm_compute; split; discriminate.
   - exfalso. each_in Hin'; try (vm_compute in Hid'; discriminate); vm_compute in Hdue; discriminate.
   - exists p. rewrite <- Em. auto.
+Qed.
+
+
+(* ---- T_Spec: delivery 21, outstanding after the traffic, is accounted for -- its row was
+        created by a step of the history (the Publish); the initial state had no deliveries
+        and the history has no seek ---- *)
+Example spec_upper_bound_here :
+  exists s now o, In (s, now, o) (trace st_setup h_traffic) /\
+    has_id d_id 21%N (dels s) = false /\ has_id d_id 21%N (dels (post s now o)) = true.
+Proof.
+  pick_del st_acked 21%N d Hd.
+  destruct (outstanding_after_history h_traffic st_setup 600 d)
+    as [(d0 & H0 & _)|[H|(s & now & o & d0 & Hin & Hd0 & Hid & Hs)]].
+  - apply reachable_ok. exact reach_setup.
+  - apply reachable_ok. exact reach_setup.
+  - apply all_legal_b_sound. vm_compute; reflexivity.
+  - exact Hd.
+  - vm_compute; reflexivity.
+  - vm_compute in H0. contradiction.
+  - exact H.
+  - exfalso. cbn [h_traffic trace] in Hin.
+    destruct Hin as [E|[E|[E|[]]]]; injection E as <- <- <-; vm_compute in Hs; discriminate.
 Qed.
 
 Print Assumptions c01_publish_delivers_here.
